@@ -386,6 +386,37 @@ var foldLongProp = vp.Register(vp.Prop[FoldCase]{
 			}
 			return c
 		}
+		if rapid.IntRange(0, 9).Draw(t, "dense") == 0 {
+			// Dense false starts: the haystack repeats (case variants of) the
+			// needle's first rune many times, so that a scan rejects that many
+			// candidates, and then holds a window that equals the needle under
+			// folding with the same byte length (a match), with another byte
+			// length (k against U+212A, s against U+017F: no match), or not at all.
+			first := rapid.SampledFrom([]rune{'a', 'k', 's', 'K', 'ſ', 'K', 'é', 'я'}).Draw(t, "first")
+			rest := rapid.SampledFrom([]string{"k", "s", "ks", "bk", "xyz", "K", "ſ", "é", "b"}).Draw(t, "rest")
+			needle := string(first) + rest
+			reps := rapid.SampledFrom([]int{1, 7, 15, 16, 17, 31, 33, 63, 64, 65, 100, 127, 128, 129, 130, 200, 255, 256, 257, 300, 520}).Draw(t, "reps")
+			var b strings.Builder
+			for i := 0; i < reps; i++ {
+				b.WriteRune(foldPartner(t, first))
+			}
+			tail := needle
+			switch rapid.IntRange(0, 3).Draw(t, "tailkind") {
+			case 0:
+				// The same runes with other members of their fold orbits
+				// (possibly of another width).
+				var tb strings.Builder
+				for _, r := range needle {
+					tb.WriteRune(foldPartner(t, r))
+				}
+				tail = tb.String()
+			case 1:
+				tail = strings.NewReplacer("k", "K", "s", "ſ", "K", "k", "ſ", "S", "K", "K").Replace(needle)
+			case 2:
+				tail = ""
+			}
+			return FoldCase{S: b.String() + tail + rapid.SampledFrom([]string{"", "#", "zz"}).Draw(t, "after"), Sub: needle}
+		}
 		alphabet := rapid.SampledFrom(longAlphabets).Draw(t, "alphabet")
 		var n int
 		if rapid.Bool().Draw(t, "boundary") {
